@@ -77,9 +77,61 @@ func (H) Generate(r *simrt.Rand, tier string) any {
 	if tier == "thorough" && r.Intn(5) == 0 {
 		n = 1 + r.Intn(2000)
 	}
+	if r.Intn(10) == 0 {
+		// phases: fill with distinct pairs to a peak, drain by removals to a quarter or
+		// a half of it (one more or less), to one pair or to none, then collide -
+		// high-water marks, compaction and shrinking policies act at such boundaries,
+		// and a mixed history hardly ever lines up with them
+		s.UK, s.UV = 8+r.Intn(40), 8+r.Intn(40)
+		lim := s.UK
+		if s.UV < lim {
+			lim = s.UV
+		}
+		for round := 0; round < 1+r.Intn(3); round++ {
+			m := 8 + r.Intn(lim-7)
+			keys, vals := r.Perm(s.UK), r.Perm(s.UV)
+			for i := 0; i < m; i++ {
+				s.Ops = append(s.Ops, Op{K: "add", A: keys[i], B: vals[i]})
+			}
+			target := []int{m / 4, m/4 + 1, m/4 - 1, m / 2, 1, 0}[r.Intn(6)]
+			if target < 0 {
+				target = 0
+			}
+			for i := 0; i < m-target; i++ {
+				if r.Intn(2) == 0 {
+					s.Ops = append(s.Ops, Op{K: "rmf", A: keys[i]})
+				} else {
+					s.Ops = append(s.Ops, Op{K: "rmr", B: vals[i]})
+				}
+			}
+			for i := 0; i < 1+r.Intn(6); i++ {
+				o := Op{K: []string{"add", "add", "add", "rmf", "rmr", "clone", "clear"}[r.Intn(7)], A: r.Intn(s.UK), B: r.Intn(s.UV), M: r.Intn(3)}
+				if o.K == "add" && target > 0 && r.Intn(2) == 0 {
+					o.A = keys[m-1-r.Intn(target)] // a key that is still bound
+				}
+				s.Ops = append(s.Ops, o)
+			}
+		}
+		return s
+	}
+	big := r.Intn(80) == 0
+	if big {
+		// a bimap of a hundred pairs and more: size policies (a Clear that drops its
+		// maps, a Clone that shares them) only start there. Mostly additions over
+		// large universes, one Clear late in the history, a clone now and then
+		s.UK, s.UV = 70+r.Intn(230), 70+r.Intn(230)
+		n = 80 + r.Intn(320)
+	}
 	for i := 0; i < n; i++ {
 		o := Op{A: r.Intn(s.UK), B: r.Intn(s.UV), M: r.Intn(3)}
 		x := r.Intn(100)
+		if big {
+			// 0..54 add, 55..84 removals, 85..89 clear, 90..92 rangemut, 93.. clone
+			x = []int{0, 0, 0, 0, 0, 0, 0, 0, 0, 0, 0, 0, 0, 0, 0, 0, 0, 0, 0, 0, 0, 0, 60, 75, 91, 95}[r.Intn(26)]
+			if i == n-1-n/8 || (i == n/2 && r.Intn(2) == 0) {
+				x = 87
+			}
+		}
 		switch {
 		case x < 55:
 			o.K = "add"
